@@ -53,7 +53,16 @@ static bool same(const Out &a, const Out &b) {
     return a.x.empty() || !std::memcmp(a.x.data(), b.x.data(), 8 * a.x.size());
 }
 
-struct Case { long c, r, s, ce, ml, dc, npre, npost, ncycle, maxiter; Mat A; std::vector<Q> f; };
+// optional trailing list of NON-DEFAULT component parameters: `nprm key value ...`; keys are relative to the component
+// ("relax.", "coarsening.", "solver." prefix), the executor prepends the path of the class under test
+typedef std::vector<std::pair<std::string, std::string>> Extra;
+static Extra read_extra(Cur &c) {
+    Extra e; if (c.end()) return e;
+    long n = c.nat(); if (n < 0 || n > 32) throw bad_input("nprm");
+    for (long i = 0; i < n; ++i) { std::string k = c.tok(), v = c.tok(); if (k.compare(0, 6, "relax.") && k.compare(0, 11, "coarsening.") && k.compare(0, 7, "solver.")) throw bad_input("prm key"); e.push_back({k, v}); }
+    return e;
+}
+struct Case { long c, r, s, ce, ml, dc, npre, npost, ncycle, maxiter; Mat A; std::vector<Q> f; Extra extra; };
 
 static Out run_once(const Case &k, int fill_mode) {
     Out o;
@@ -65,6 +74,7 @@ static Out run_once(const Case &k, int fill_mode) {
     prm.put("precond.coarse_enough", k.ce); prm.put("precond.max_levels", k.ml); prm.put("precond.direct_coarse", k.dc != 0);
     prm.put("precond.npre", k.npre); prm.put("precond.npost", k.npost); prm.put("precond.ncycle", k.ncycle);
     if (std::string(solvers[k.s]) != "preonly") prm.put("solver.maxiter", k.maxiter);
+    for (auto &kv : k.extra) prm.put((kv.first.compare(0, 7, "solver.") ? "precond." : "") + kv.first, kv.second);
     vh_poison::mode = fill_mode; vh_poison::track = (fill_mode == 1);
     struct Off { ~Off() { vh_poison::mode = -1; vh_poison::track = false; } } off_guard;
     try {
@@ -81,7 +91,7 @@ static Out run_once(const Case &k, int fill_mode) {
 typedef amgcl::runtime::preconditioner<Backend> RPrecond;
 static const char *pclasses[] = { "amg", "relaxation", "dummy" };
 
-struct PCase { long cls, c, r, ce, ml, dc; Mat A; std::vector<Q> f; };
+struct PCase { long cls, c, r, ce, ml, dc; Mat A; std::vector<Q> f; Extra extra; };
 static Out papply_once(const PCase &k, int fill_mode) {
     Out o;
     std::vector<ptrdiff_t> ptr(k.A.ptr), col(k.A.col); std::vector<double> val(k.A.val.size()), rhs(k.f.size());
@@ -91,6 +101,11 @@ static Out papply_once(const PCase &k, int fill_mode) {
     prm.put("class", pclasses[k.cls]);
     if (k.cls == 0) { prm.put("coarsening.type", coarsenings[k.c]); prm.put("relax.type", relaxations[k.r]); prm.put("coarse_enough", k.ce); prm.put("max_levels", k.ml); prm.put("direct_coarse", k.dc != 0); }
     else if (k.cls == 1) prm.put("type", relaxations[k.r]);
+    for (auto &kv : k.extra) {
+        if (!kv.first.compare(0, 7, "solver.")) continue;
+        if (k.cls == 0) prm.put(kv.first, kv.second);
+        else if (k.cls == 1 && !kv.first.compare(0, 6, "relax.")) prm.put(kv.first.substr(6), kv.second);
+    }
     vh_poison::mode = fill_mode; vh_poison::track = (fill_mode == 1);
     struct Off { ~Off() { vh_poison::mode = -1; vh_poison::track = false; } } off_guard;
     try {
@@ -211,13 +226,14 @@ static Result execute_pcomp(const Toks &t) {
 }
 
 static Result execute_papply(const Toks &t) {
-    Cur c(t); PCase k; k.cls = c.nat(); k.c = c.nat(); k.r = c.nat(); k.ce = c.nat(); k.ml = c.nat(); k.dc = c.nat(); k.A = c.mat(); k.f = c.vec(); c.expect_end();
+    Cur c(t); PCase k; k.cls = c.nat(); k.c = c.nat(); k.r = c.nat(); k.ce = c.nat(); k.ml = c.nat(); k.dc = c.nat(); k.A = c.mat(); k.f = c.vec(); k.extra = read_extra(c); c.expect_end();
     std::string why; if (!crs_wf(*k.A.crs(), why) || k.A.n != k.A.m || (long)k.f.size() != k.A.n) throw bad_input("shape");
     if (k.cls < 0 || k.cls > 2 || k.c < 0 || k.c > 3 || k.r < 0 || k.r > 8 || k.ml < 1) throw bad_input("enum");
     Result r; Out base = papply_once(k, 0);
     for (int m = 1; m <= 3; ++m) { Out o = papply_once(k, m); if (!same(base, o)) { r.fail(std::string("preconditioner apply() depends on the previous contents of its output vector / the heap: fill 0x00 vs ") + (m == 1 ? "0xFF" : m == 2 ? "0xAA" : "random") + " (" + pclasses[k.cls] + "/" + coarsenings[k.c] + "/" + relaxations[k.r] + ")"); break; } }
     Line l; l << base.tag; for (double d : base.x) l << hex(d);
     r.out = l.get(); r.nontrivial = base.tag == "ok" && k.A.n > 1; r.tag("papply").tag(pclasses[k.cls]).tag(relaxations[k.r]).tag(base.tag);
+    if (!k.extra.empty()) r.tag("nondefault_params");
     for (auto &key : vh_poison::sites_since_mark()) r.tag("site:" + key);
     return r;
 }
@@ -227,7 +243,7 @@ static Result execute(const Toks &t) {
     if (t[0] == "pcomp") return execute_pcomp(t);
     Cur c(t); if (t[0] != "pipe") return Result("bad-op");
     Case k; k.c = c.nat(); k.r = c.nat(); k.s = c.nat(); k.ce = c.nat(); k.ml = c.nat(); k.dc = c.nat(); k.npre = c.nat(); k.npost = c.nat(); k.ncycle = c.nat(); k.maxiter = c.nat();
-    k.A = c.mat(); k.f = c.vec(); c.expect_end();
+    k.A = c.mat(); k.f = c.vec(); k.extra = read_extra(c); c.expect_end();
     std::string why; if (!crs_wf(*k.A.crs(), why) || k.A.n != k.A.m || (long)k.f.size() != k.A.n) throw bad_input("shape");
     if (k.c < 0 || k.c > 3 || k.r < 0 || k.r > 8 || k.s < 0 || k.s > 8 || k.ml < 1) throw bad_input("enum");
     Result r;
@@ -246,6 +262,7 @@ static Result execute(const Toks &t) {
     r.out = l.get();
     r.nontrivial = base.tag == "ok" && k.A.n > 1;
     r.tag(coarsenings[k.c]).tag(relaxations[k.r]).tag(solvers[k.s]).tag(base.tag);
+    if (!k.extra.empty()) r.tag("nondefault_params");
     for (auto &key : vh_poison::sites_since_mark()) r.tag("site:" + key);
     return r;
 }
@@ -254,8 +271,60 @@ static Mat dyadic_spd(Rng &rng, long n, int kind) {   // weights k/2: exact in b
     return gen_spd(rng, n, kind, 3);
 }
 
-static void emit(std::vector<std::string> &lines, Rng &rng, const Mat &A, long c, long r, long s, long ce, long ml, long dc) {
+// non-default values for every importable parameter of the components (the property quantifies over configurations);
+// each table entry: key, candidate values.  Fill factors / thresholds / degrees include fractional and boundary values.
+struct PV { const char *key; std::vector<const char*> vals; };
+static const std::vector<PV>& relax_params(long r) {
+    static const std::vector<PV> solve = { {"solve.serial", {"true", "false"}}, {"solve.damping", {"0.5", "1"}} };
+    static const std::vector<std::vector<PV>> t = {
+        /* gauss_seidel */ { {"serial", {"true", "false"}} },
+        /* ilu0 */ { {"damping", {"0.5", "0.75", "1"}}, solve[0], solve[1] },
+        /* iluk */ { {"k", {"0", "1", "2", "3", "5"}}, {"damping", {"0.5", "1"}}, solve[0] },
+        /* ilup */ { {"k", {"0", "1", "2", "3"}}, {"damping", {"0.5", "1"}}, solve[0] },
+        /* ilut */ { {"p", {"0.5", "1", "1.5", "2.5", "3", "1.25", "7.75"}}, {"tau", {"0", "1e-8", "0.0078125", "0.125", "0.5"}}, {"damping", {"0.5", "1"}}, solve[0] },
+        /* damped_jacobi */ { {"damping", {"0.25", "0.5", "1"}} },
+        /* spai0 */ { },
+        /* spai1 */ { },
+        /* chebyshev */ { {"degree", {"1", "2", "3", "7"}}, {"higher", {"1", "1.25"}}, {"lower", {"0.0625", "0.25"}}, {"power_iters", {"0", "1", "3"}}, {"scale", {"true", "false"}} },
+    };
+    return t[r];
+}
+static const std::vector<PV>& coarsening_params(long c) {
+    static const std::vector<std::vector<PV>> t = {
+        /* ruge_stuben */ { {"eps_strong", {"0.125", "0.25", "0.5", "0.75"}}, {"do_trunc", {"true", "false"}}, {"eps_trunc", {"0.0625", "0.2", "0.5"}} },
+        /* aggregation */ { {"over_interp", {"1", "1.5", "2"}}, {"aggr.eps_strong", {"0", "0.03125", "0.25", "0.5"}}, {"aggr.block_size", {"1", "2", "3"}} },
+        /* smoothed_aggregation */ { {"relax", {"0.5", "1", "1.5"}}, {"estimate_spectral_radius", {"true", "false"}}, {"power_iters", {"0", "1", "4"}}, {"aggr.eps_strong", {"0", "0.03125", "0.25"}}, {"aggr.block_size", {"1", "2", "3"}} },
+        /* smoothed_aggr_emin */ { {"aggr.eps_strong", {"0", "0.03125", "0.25"}}, {"aggr.block_size", {"1", "2"}} },
+    };
+    return t[c];
+}
+static const std::vector<PV>& solver_params(long s) {
+    static const std::vector<PV> side = { {"pside", {"left", "right"}} };
+    static const std::vector<std::vector<PV>> t = {
+        /* cg */ { {"ns_search", {"true"}}, {"abstol", {"1e-3"}} },
+        /* bicgstab */ { side[0], {"check_after", {"true", "false"}}, {"ns_search", {"true"}} },
+        /* bicgstabl */ { side[0], {"L", {"1", "2", "3", "4"}}, {"delta", {"0", "0.5"}}, {"convex", {"true", "false"}} },
+        /* gmres */ { side[0], {"M", {"1", "2", "3", "5"}} },
+        /* lgmres */ { side[0], {"M", {"1", "2", "4"}}, {"K", {"0", "1", "2", "3"}}, {"always_reset", {"true", "false"}} },
+        /* fgmres */ { {"M", {"1", "2", "3", "5"}} },
+        /* idrs */ { {"s", {"1", "2", "3", "5"}}, {"omega", {"0", "0.7"}}, {"smoothing", {"true", "false"}}, {"replacement", {"true", "false"}} },
+        /* richardson */ { {"damping", {"0.5", "1"}} },
+        /* preonly */ { },
+    };
+    return t[s];
+}
+static void pick_params(Rng &rng, const char *prefix, const std::vector<PV> &tab, Extra &e) {
+    for (auto &pv : tab) if (rng.coin(1, 2)) e.push_back({std::string(prefix) + pv.key, pv.vals[rng.range(0, (long)pv.vals.size() - 1)]});
+}
+static void put_extra(Line &l, Rng &rng, long c, long r, long s) {
+    Extra e; pick_params(rng, "relax.", relax_params(r), e);
+    if (c >= 0) pick_params(rng, "coarsening.", coarsening_params(c), e);
+    if (s >= 0) pick_params(rng, "solver.", solver_params(s), e);
+    l << (long)e.size(); for (auto &kv : e) l << kv.first << kv.second;
+}
+static void emit(std::vector<std::string> &lines, Rng &rng, const Mat &A, long c, long r, long s, long ce, long ml, long dc, bool nondefault = false) {
     Line l; l << "pipe" << c << r << s << ce << ml << dc << rng.range(1, 2) << rng.range(1, 2) << rng.range(1, 2) << rng.range(1, 12) << A << gen_vec(rng, A.n, true);
+    if (nondefault) put_extra(l, rng, c, r, s);
     lines.push_back(l.get());
 }
 
@@ -277,10 +346,22 @@ static void generate(Rng &rng, const Opts &o, std::vector<std::string> &lines) {
         if (rng.coin(1, 5)) A = unsort(rng, A, false);
         emit(lines, rng, A, rng.range(0, 3), rng.range(0, 8), rng.range(0, 8), rng.pick(ces), rng.pick(mls), rng.coin(3, 4));
     }
+    // non-default component parameters (fill factors, thresholds, degrees, restart lengths, sides ...): the same pipeline
+    // with a random subset of the importable parameters of the three components set to non-default values; the
+    // relaxation cycles through all nine kinds so that each meets its own parameters in every run; larger matrices
+    // (3D-like fill) so that fill-controlled factorisations actually use their quota
+    for (long k = 0; k < N; ++k) {
+        long n = rng.range(2, o.thorough() ? 90 : 45);
+        Mat A = rng.coin(1, 5) ? gen_convdiff(rng, n) : dyadic_spd(rng, n, (int)rng.range(0, 3));
+        if (rng.coin(1, 5)) A = unsort(rng, A, false);
+        emit(lines, rng, A, rng.range(0, 3), k % 9, rng.range(0, 8), rng.pick(ces), rng.pick(mls), rng.coin(3, 4), true);
+    }
     for (long k = 0; k < N / 2; ++k) {
         long n = rng.range(2, 20);
         Mat A = rng.coin(1, 5) ? gen_convdiff(rng, n) : dyadic_spd(rng, n, (int)rng.range(0, 3));
-        Line l; l << "papply" << rng.range(0, 2) << rng.range(0, 3) << rng.range(0, 8) << rng.pick(ces) << rng.pick(mls) << rng.coin(3, 4) << A << gen_vec(rng, A.n, true);
+        long cls = rng.range(0, 2), c = rng.range(0, 3), r = rng.range(0, 8);
+        Line l; l << "papply" << cls << c << r << rng.pick(ces) << rng.pick(mls) << rng.coin(3, 4) << A << gen_vec(rng, A.n, true);
+        if (rng.coin()) put_extra(l, rng, cls == 0 ? c : -1, r, -1);
         lines.push_back(l.get());
     }
     // composites / kernels in double: every kind with every block size, on block-structured SPD matrices
